@@ -82,6 +82,9 @@ class SymArray(_np.ndarray):
         return NP_INSTANCE.all(self, axis=axis)
 
 
+_KEYARR = ("stack", "concatenate")
+
+
 class KeyArray(_np.ndarray):
     """concrete array that may be indexed with a symbolic mask (the mask is decided element by element); used by stubs that hand
     concrete index arrays to the code under test"""
@@ -89,12 +92,15 @@ class KeyArray(_np.ndarray):
     def __getitem__(self, key):
         return super().__getitem__(_fixkey(key))
 
+    def __array_wrap__(self, obj, context=None, return_scalar=False):
+        if obj.ndim == 0:
+            return obj[()]  # full reductions give scalars, as for plain arrays
+        return _np.asarray(obj)
+
 
 def wrap(a):
     if isinstance(a, _np.ndarray) and a.dtype == object and not isinstance(a, SymArray):
         return a.view(SymArray)
-    if type(a) is _np.ndarray and a.dtype.kind == "i" and a.ndim:
-        return a.view(KeyArray)  # index arrays built by the code under test may later be filtered by a symbolic mask
     if isinstance(a, tuple):
         return tuple(wrap(x) for x in a)
     if isinstance(a, list):
@@ -280,7 +286,10 @@ class NP:
         if callable(v) and not isinstance(v, type):
 
             def f(*a, **k):
-                return fix(wrap(v(*a, **k))) if name in _FIX else wrap(v(*a, **k))
+                r = v(*a, **k)
+                if name in _KEYARR and type(r) is _np.ndarray and r.dtype.kind == "i" and r.ndim:
+                    return r.view(KeyArray)  # index arrays assembled by the code under test may later be filtered by a symbolic mask
+                return fix(wrap(r)) if name in _FIX else wrap(r)
 
             f.__name__ = name
             return f
